@@ -11,6 +11,7 @@ THEMES = {
     "errorpath": " ADDITIONAL CONSTRAINT: the defect must manifest only on a FAILURE PATH: when an operation fails, is rejected, finds nothing, or returns an error / None / a duplicate report - the error's content or position is wrong, or the state left behind after the failure is wrong, or a later call after a failure misbehaves. Successful operations on valid data must behave exactly as before.",
     "combo": " ADDITIONAL CONSTRAINT: the defect must need a COMBINATION of two independent conditions, each of which alone is harmless (two option fields set together, an option together with a feature of the input, two features of the input in the same document or value, two different operations applied to the same object): with either condition alone everything must behave exactly as before.",
     "boundary": " ADDITIONAL CONSTRAINT: the defect must manifest only AT A BOUNDARY VALUE and be correct one step on either side of it: a Unicode boundary (U+007F/U+0080, U+07FF/U+0800, U+D7FF/U+E000, U+FFFF/U+10000, U+10FFFF), an integer limit (i64/u64/i32/u16/u8 minimum or maximum, 2^53), a decimal threshold (1e21, 1e-7, a tie between two doubles, the largest/smallest finite or subnormal double) or a counter limit (255/256, 65535/65536).",
+    "adversarial": " ADDITIONAL CONSTRAINT: assume the verification harness is strong: it executes the library exhaustively on all small inputs (all strings of up to about 6 characters over a rich alphabet, all values of up to about 5 nodes, all operation sequences of up to about 4 steps over 2-3 keys), on one-parameter families grown through every power-of-two size up to 65 537, on every boundary value of the numeric and Unicode types, through every public entry point, and compares with an independent reference. Design your defect so that such a harness would most likely still MISS it (for instance: it needs two size or value parameters to be large or special at the same time, a rare relation between two parts of the input, three or more cooperating features, a specific non-boundary magic value that comes from the code rather than from the data types, or a long specific history), while it stays a realistic maintainer mistake and your demo still shows it deterministically.",
     "history": " ADDITIONAL CONSTRAINT: the defect must be HISTORY-DEPENDENT: it must not be observable by a single call on fresh data in a fresh process. It needs earlier calls or operations in the same thread, or on the same object, to have happened first (state left behind by an earlier call or an earlier error, a reused buffer or cache, a clone sharing structure, an iterator that was advanced from the other end first, an operation that is wrong only when it follows a particular other operation, and so on).",
 }
 extra = THEMES[theme]
